@@ -60,7 +60,7 @@ What this cannot see (textual approximation, stated so nobody reads more into it
     `.unwrap()` is an `unwrap` match.
 """
 import os, re
-from extract import ShapeError, write_if_changed
+from extract import ShapeError, write_if_changed, read_src
 
 FILES = [
     ("src/index/updater.rs",
@@ -181,7 +181,7 @@ def inventory(repo):
         path = os.path.join(repo, rel)
         if not os.path.exists(path):
             raise ShapeError(f"{rel} not found")
-        src = open(path).read()
+        src = read_src(path)
         cut = src.find("#[cfg(test)]")
         if cut >= 0:
             src = src[:cut]
